@@ -456,6 +456,7 @@ class Runner:
         self.prism_how = {}
         self.nonaz_prisms = 0
         self.notes = []
+        self.accessor_diffs = []
 
     def run_spec(self, name, lines, minimise=True):
         """lines: harness spec lines.  Returns (#queries)."""
@@ -495,6 +496,11 @@ class Runner:
                 ops.append(pend)
                 expect.append(l[2:])
                 pend = None
+            elif l.startswith("KQ "):
+                # the object's SpellingAccessor enumerates something else than the spelling table it was built from
+                # (the K line before it): the graphs are judged against the table, this only explains them
+                if len(self.accessor_diffs) < 20:
+                    self.accessor_diffs.append({"spec": name, "table_row": ops[-1] if ops else None, "accessor": l})
             elif l.startswith("# error") or l.startswith("# build-failed"):
                 self.notes.append("%s: %s" % (name, l))
         if rc != 0:
@@ -659,7 +665,7 @@ def run(c):
         f = case["op"].split(" ")
         c.report("C08:%s" % clause, "%s: %s (input %r, flags completion=%s strict=%s, prism made by `build %s`)" %
                  (clause, case["detail"], case.get("input"), f[2] if len(f) > 3 else "-", f[3] if len(f) > 3 else "-", case.get("build")),
-                 {"kind": "impl-violation", "case": case})
+                 {"kind": "impl-violation", "case": case, "accessor_differs_from_table": R.accessor_diffs[:5]})
     for cr in R.crashes[:1]:
         c.report("C08:sanitizer", "sanitizer abort / crash of the syllabifier harness (rc=%s)" % cr["rc"], {"kind": "sanitizer", "case": cr})
     if R.mismatches and not R.ofails:
@@ -696,7 +702,7 @@ def run(c):
                  "a-z default alphabet of a built-only prism; distinct by (prism, flags, input)") % (sorted(maxlens), nrand),
         "samples": R.samples, "prisms": R.prisms, "prisms_by_build": R.prism_how, "prisms_with_non_az_alphabet": R.nonaz_prisms, "prism_spellings": R.prism_rows, "descriptor_types": R.prism_types,
         "feature_counts": R.feat, "correspondence_mismatches": len(R.mismatches), "impl_monitor_failures": len(R.ofails),
-        "sanitizer_aborts": len(R.crashes), "harness_notes": R.notes[:10], "generator_version": GENERATOR_VERSION,
+        "sanitizer_aborts": len(R.crashes), "harness_notes": R.notes[:10], "spelling_accessor_rows_differing_from_the_table": len(R.accessor_diffs), "generator_version": GENERATOR_VERSION,
         "source_hash": vlib.source_hash(SRC_FILES), "proof_failures": audit["failures"],
     })
     c.cov = cov
